@@ -60,6 +60,30 @@ def _call(engine, name, nparams, cffi_args):
     return fptr(*cffi_args)
 
 
+_GUARD = [None, False]
+
+
+def _guard_allocator():
+    """Route malloc/realloc of JIT-compiled modules through build/libguardalloc.so (once per process)."""
+    import ctypes
+    import os
+
+    if _GUARD[1]:
+        return _GUARD[0]
+    _GUARD[1] = True
+    path = os.path.join(os.path.dirname(os.path.dirname(os.path.dirname(os.path.abspath(__file__)))), "build", "libguardalloc.so")
+    if not os.path.exists(path):
+        return None
+    import llvmlite.binding as llvm
+
+    lib = ctypes.CDLL(path)
+    lib.guard_check.restype = ctypes.c_int
+    llvm.add_symbol("malloc", ctypes.cast(lib.guard_malloc, ctypes.c_void_p).value)
+    llvm.add_symbol("realloc", ctypes.cast(lib.guard_realloc, ctypes.c_void_p).value)
+    _GUARD[0] = lib
+    return lib
+
+
 def llvm_kernels(req, bridge, C):
     """Build the module for a case, JIT it with tensora's own compile_module and run the requested kernels.
     evaluate on a fresh output; assemble then compute on a second output."""
@@ -74,6 +98,7 @@ def llvm_kernels(req, bridge, C):
     status, mod = bridge.build_module(case, kinds, capacity=case.get("capacity"))
     if status != "ok":
         return {"nobuild": status, "why": str(mod)}
+    guard = _guard_allocator()
     try:
         engine = compile_module(mod)
     except Exception as e:  # noqa: BLE001
@@ -110,6 +135,11 @@ def llvm_kernels(req, bridge, C):
         rep["out"]["compute"] = C.raw_of_tensor(o2)
         take_ownership_of_arrays(o2.cffi_tensor)
     rep["inputs_after"] = {nm: C.raw_of_tensor(t) for nm, t in ins.items()}
+    if guard is not None:
+        # every block the JIT-compiled kernels allocated carries a guard zone behind it; check them while the
+        # outputs are still alive, then forget the table (the blocks are released by tensora's own free())
+        rep["guard_zones_overwritten"] = int(guard.guard_check())
+        guard.guard_forget()
     gc.collect()
     return rep
 
